@@ -67,6 +67,8 @@ def check_document(blocks, argv, stats, label):
             continue
         if has_zero_push(a) or has_zero_push(b):
             stats.nontrivial.add(runner.jhash([asm.instrs_to_plain(a), lab]))
+            if len(stats.samples) < 6 and a != b:
+                stats.sample({"options": lab, "block": asm.instrs_to_plain(a), "emitted_item_names": names_out})
         if disabled and "PUSH0" in names_out and "PUSH0" not in names_in:
             fails.append(runner.Failure("push0-emitted-although-disabled", "json", "[%s] `%s` => emitted items %s" % (lab, asm.instrs_to_plain(a), names_out),
                                         dict(case, blocks=[asm.instrs_to_plain(a)])))
